@@ -6,12 +6,18 @@ use super::ast::*;
 use super::lexer::{Lexer, Token, TokenKind};
 use grafeo_common::utils::error::{Error, QueryError, QueryErrorKind, Result};
 
+/// Maximum nesting depth (parentheses, lists, maps, NOT, unary minus, sub-patterns, ...) the
+/// parser accepts.
+const MAX_NESTING_DEPTH: usize = 128;
+
 /// SPARQL Parser.
 pub struct Parser<'a> {
     lexer: Lexer<'a>,
     current: Token,
     /// Source string for error reporting.
     source: &'a str,
+    /// Current nesting depth, see [`MAX_NESTING_DEPTH`].
+    depth: usize,
 }
 
 impl<'a> Parser<'a> {
@@ -23,6 +29,7 @@ impl<'a> Parser<'a> {
             lexer,
             current,
             source,
+            depth: 0,
         }
     }
 
@@ -609,6 +616,10 @@ impl<'a> Parser<'a> {
     }
 
     fn parse_group_graph_pattern(&mut self) -> Result<GraphPattern> {
+        self.nested(Self::parse_group_graph_pattern_inner)
+    }
+
+    fn parse_group_graph_pattern_inner(&mut self) -> Result<GraphPattern> {
         self.expect(TokenKind::LeftBrace)?;
 
         let mut patterns = Vec::new();
@@ -705,6 +716,10 @@ impl<'a> Parser<'a> {
     }
 
     fn parse_group_or_subquery(&mut self) -> Result<GraphPattern> {
+        self.nested(Self::parse_group_or_subquery_inner)
+    }
+
+    fn parse_group_or_subquery_inner(&mut self) -> Result<GraphPattern> {
         // Save position to potentially backtrack
         let saved_kind = self.current.kind.clone();
 
@@ -955,6 +970,10 @@ impl<'a> Parser<'a> {
     }
 
     fn parse_object(&mut self, triples: &mut Vec<TriplePattern>) -> Result<TripleTerm> {
+        self.nested(|parser| parser.parse_object_inner(triples))
+    }
+
+    fn parse_object_inner(&mut self, triples: &mut Vec<TriplePattern>) -> Result<TripleTerm> {
         if self.current.kind == TokenKind::LeftBracket {
             // Blank node with property list
             self.advance();
@@ -977,6 +996,10 @@ impl<'a> Parser<'a> {
     }
 
     fn parse_var_or_term(&mut self) -> Result<TripleTerm> {
+        self.nested(Self::parse_var_or_term_inner)
+    }
+
+    fn parse_var_or_term_inner(&mut self) -> Result<TripleTerm> {
         match self.current.kind {
             TokenKind::Variable => {
                 let name = self.expect_variable_name()?;
@@ -1103,6 +1126,10 @@ impl<'a> Parser<'a> {
     }
 
     fn parse_path_primary(&mut self) -> Result<PropertyPath> {
+        self.nested(Self::parse_path_primary_inner)
+    }
+
+    fn parse_path_primary_inner(&mut self) -> Result<PropertyPath> {
         match self.current.kind {
             TokenKind::Iri => {
                 let iri = self.parse_iri()?;
@@ -1465,6 +1492,10 @@ impl<'a> Parser<'a> {
     }
 
     fn parse_primary_expression(&mut self) -> Result<Expression> {
+        self.nested(Self::parse_primary_expression_inner)
+    }
+
+    fn parse_primary_expression_inner(&mut self) -> Result<Expression> {
         match self.current.kind {
             TokenKind::LeftParen => {
                 self.advance();
@@ -2067,6 +2098,19 @@ impl<'a> Parser<'a> {
         self.advance();
         text.parse()
             .map_err(|_| self.error(&format!("invalid integer: {}", text)))
+    }
+
+    /// Runs `f` one nesting level deeper.  Input nested more than [`MAX_NESTING_DEPTH`] levels is
+    /// rejected with a syntax error: the parser is a recursive descent and would otherwise
+    /// overflow the stack (which aborts the process) on a few KB of `((((...`.
+    fn nested<T>(&mut self, f: impl FnOnce(&mut Self) -> Result<T>) -> Result<T> {
+        if self.depth >= MAX_NESTING_DEPTH {
+            return Err(self.error("query is nested too deeply"));
+        }
+        self.depth += 1;
+        let result = f(self);
+        self.depth -= 1;
+        result
     }
 
     fn error(&self, message: &str) -> Error {
